@@ -83,7 +83,7 @@ var (
 	typeValues = map[string][]string{
 		"string":           stringVals,
 		"list":             listVals,
-		"cons":             listVals[1:],
+		"cons":             append(append([]string{}, listVals[1:]...), "e:(cons 0 3)", "e:(cons 8 0)", "e:(cons 64 1)", "e:(cons -1 0)", "e:(cons 3 -1)", "e:(cons 1 nil)"),
 		"vector":           vectorVals,
 		"simple-vector":    {"e:(vector 1 2 3)", "vec0"},
 		"array":            append(append([]string{}, vectorVals...), "arr2d"),
@@ -312,7 +312,40 @@ func pairCases(fn string, ps []param, _ []int) (cases []Case) {
 		}
 	}
 	if len(seqs) < 2 {
-		return nil
+		// a function of one or two required parameters whose documented types all have a value set is called with the
+		// whole product of the sets (e.g. ldb: every cons, byte specifiers of width 0 and 64 among them, x every integer)
+		if len(ps) == 0 || len(ps) > 2 {
+			return nil
+		}
+		sets := make([][]string, len(ps))
+		n := 1
+		for i, p := range ps {
+			if p.kind != 0 {
+				return nil
+			}
+			if sets[i] = valuesOf(p.typ); len(sets[i]) == 0 {
+				return nil
+			}
+			n *= len(sets[i])
+		}
+		if n > 200 {
+			return nil
+		}
+		for _, va := range sets[0] {
+			vals := map[int]string{0: va}
+			if len(ps) == 1 {
+				if c := (Case{Fn: fn, Mode: "q", Args: buildTyped(ps, vals)}); !notDriven(c) {
+					cases = append(cases, c)
+				}
+				continue
+			}
+			for _, vb := range sets[1] {
+				if c := (Case{Fn: fn, Mode: "q", Args: buildTyped(ps, map[int]string{0: va, 1: vb})}); !notDriven(c) {
+					cases = append(cases, c)
+				}
+			}
+		}
+		return cases
 	}
 	a, b := seqs[0], seqs[1]
 	for _, va := range valuesOf(ps[a].typ) {
